@@ -451,13 +451,20 @@ pub fn run(args: &Args, sink: &mut Sink, asyncf: bool) {
 // async-lock flavour with guards held across other calls, pending futures, cancellation (C16)
 use eyeball::ObservableReadGuard;
 
-enum FOut { Res(String), RG(ObservableReadGuard<'static, T, AsyncLock>), WG(ObservableWriteGuard<'static, T, AsyncLock>) }
-struct PFut { f: Pin<Box<dyn Future<Output = FOut>>>, flag: Arc<Flag>, waker: Waker, woken: bool, val: Option<u64> }
+enum FOut { Res(String), RG(ObservableReadGuard<'static, T, AsyncLock>), WG(ObservableWriteGuard<'static, T, AsyncLock>), RGV(ObservableReadGuard<'static, T, AsyncLock>) }
+struct PFut { f: Pin<Box<dyn Future<Output = FOut>>>, flag: Arc<Flag>, waker: Waker, woken: bool, val: Option<u64>, sub: Option<usize> }
 enum GuardK { R(#[allow(dead_code)] ObservableReadGuard<'static, T, AsyncLock>), W(ObservableWriteGuard<'static, T, AsyncLock>) }
 
 struct GW {
     ob: &'static SharedObservable<T, AsyncLock>,
-    subs: Vec<Option<SubH>>,
+    /// boxed: a `next_ref()` future borrows the subscriber it belongs to, so it must not move
+    subs: Vec<Option<Box<SubH>>>,
+    /// the `next_ref()` future currently borrowing the subscriber
+    driven: Vec<Option<usize>>,
+    /// per guard: the subscriber it was handed out by (and borrows)
+    gsub: Vec<Option<usize>>,
+    /// a `next_ref()` future of the subscriber was cancelled half-way: whether the latest value still counts as unobserved is not known
+    unknown: Vec<bool>,
     futs: Vec<Option<PFut>>,
     guards: Vec<Option<GuardK>>,
     nfut: usize,
@@ -472,7 +479,7 @@ impl GW {
     fn new(sink: &mut Sink, v: u64) -> GW {
         sink.line(&format!("onew shared async {v}"), "ok");
         let ob: &'static SharedObservable<T, AsyncLock> = Box::leak(Box::new(SharedObservable::new_async(T(v))));
-        GW { ob, subs: vec![], futs: vec![], guards: vec![], nfut: 0, cur: v, lockwait: vec![], under_w: vec![] }
+        GW { ob, subs: vec![], driven: vec![], gsub: vec![], unknown: vec![], futs: vec![], guards: vec![], nfut: 0, cur: v, lockwait: vec![], under_w: vec![] }
     }
     fn quiet(&self) -> bool { self.guards.iter().all(|g| g.is_none()) && self.futs.iter().all(|f| f.is_none()) && self.lockwait.iter().all(|b| !*b) }
     fn wguard_held(&self) -> bool { self.guards.iter().any(|g| matches!(g, Some(GuardK::W(_)))) }
@@ -497,7 +504,7 @@ impl GW {
         let k = self.nfut;
         self.nfut += 1;
         let (flag, waker) = flag_waker();
-        let mut pf = PFut { f, flag, waker, woken: false, val: notify_to };
+        let mut pf = PFut { f, flag, waker, woken: false, val: notify_to, sub: None };
         let mut cx = Context::from_waker(&pf.waker);
         match pf.f.as_mut().poll(&mut cx) {
             Poll::Ready(out) => { self.futs.push(None); self.complete(sink, text, out, notify_to, false); }
@@ -516,8 +523,9 @@ impl GW {
                 let w = self.woke(); let wf = self.wokef();
                 sink.line(text, &format!("{r}{w}{wf}"));
             }
-            FOut::RG(g) => { self.guards.push(Some(GuardK::R(g))); let s = if with_woke { format!("{}{}", self.woke(), self.wokef()) } else { String::new() }; sink.line(text, &format!("guard {}{s}", self.guards.len() - 1)); }
-            FOut::WG(g) => { self.guards.push(Some(GuardK::W(g))); let s = if with_woke { format!("{}{}", self.woke(), self.wokef()) } else { String::new() }; sink.line(text, &format!("guard {}{s}", self.guards.len() - 1)); }
+            FOut::RGV(_) => unreachable!(),
+            FOut::RG(g) => { self.gsub.push(None); self.guards.push(Some(GuardK::R(g))); let s = if with_woke { format!("{}{}", self.woke(), self.wokef()) } else { String::new() }; sink.line(text, &format!("guard {}{s}", self.guards.len() - 1)); }
+            FOut::WG(g) => { self.gsub.push(None); self.guards.push(Some(GuardK::W(g))); let s = if with_woke { format!("{}{}", self.woke(), self.wokef()) } else { String::new() }; sink.line(text, &format!("guard {}{s}", self.guards.len() - 1)); }
         }
     }
     fn write(&mut self, sink: &mut Sink, v: u64, sne: bool) {
@@ -533,11 +541,27 @@ impl GW {
     fn wguard(&mut self, sink: &mut Sink) { let ob = self.ob; self.start(sink, "awg 0", Box::pin(async move { FOut::WG(ob.write().await) }), None); }
     fn rguard(&mut self, sink: &mut Sink) { let ob = self.ob; self.start(sink, "arg 0", Box::pin(async move { FOut::RG(ob.read().await) }), None); }
     fn fpoll(&mut self, sink: &mut Sink, k: usize) {
-        let Some(pf) = self.futs[k].as_mut() else { return };
+        if self.futs[k].is_none() { return; }
+        let quiet_but_me = self.guards.iter().all(|g| g.is_none()) && self.futs.iter().enumerate().all(|(j, f)| j == k || f.is_none()) && self.lockwait.iter().all(|b| !*b);
+        let pf = self.futs[k].as_mut().unwrap();
         if pf.flag.0.swap(false, Ordering::SeqCst) { pf.woken = true; }
-        let mut cx = Context::from_waker(&pf.waker);
+        let waker = pf.waker.clone();
+        let mut cx = Context::from_waker(&waker);
+        let sub = pf.sub;
         match pf.f.as_mut().poll(&mut cx) {
-            Poll::Pending => { pf.woken = false; sink.line(&format!("afpoll {k}"), &format!("Pending({k})")); }
+            Poll::Pending => {
+                pf.woken = false;
+                if let Some(i) = sub {
+                    if !quiet_but_me { self.lockwait[i] = true; }
+                    let w = self.woke(); let wf = self.wokef();
+                    sink.line(&format!("afpoll {k}"), &format!("Pending({k}){w}{wf}"));
+                } else { sink.line(&format!("afpoll {k}"), &format!("Pending({k})")); }
+            }
+            Poll::Ready(out) if sub.is_some() => {
+                if !pf.woken { sink.oracle_fail("C16,C02", &format!("pending next_ref() future {k} completed on a re-poll although its waker was never woken")); }
+                self.futs[k] = None;
+                self.finish_next(sink, &format!("afpoll {k}"), sub.unwrap(), out);
+            }
             Poll::Ready(out) => {
                 if !pf.woken { sink.oracle_fail("C16,C02", &format!("pending future {k} completed on a re-poll although its waker was never woken (a waiting writer/reader was not woken when the lock was released)")); }
                 let val = pf.val;
@@ -546,7 +570,68 @@ impl GW {
             }
         }
     }
+    fn busy(&self, i: usize) -> bool {
+        self.driven[i].is_some() || self.guards.iter().enumerate().any(|(g, x)| x.is_some() && self.gsub[g] == Some(i))
+    }
+    /// `sub.next_ref()` as a future: created and polled once
+    fn anext(&mut self, sink: &mut Sink, i: usize) {
+        if self.subs[i].is_none() || self.busy(i) { return; }
+        let quiet = self.quiet();
+        let unknown = self.unknown[i];
+        let s = self.subs[i].as_mut().unwrap();
+        let fresh = s.fresh;
+        // the future polls the subscriber's lock future with its own waker: the stream-poll registration no longer counts
+        s.parked = false;
+        let SubK::A(sb) = &mut s.k else { unreachable!() };
+        let p: *mut Subscriber<T, AsyncLock> = sb;
+        // the harness never touches subscriber `i` again while this future or the guard it returns is alive (`busy`)
+        let f: Pin<Box<dyn Future<Output = FOut>>> = Box::pin(async move {
+            let s: &'static mut Subscriber<T, AsyncLock> = unsafe { &mut *p };
+            match s.next_ref().await { Some(g) => FOut::RGV(g), None => FOut::Res("none".into()) }
+        });
+        let k = self.nfut;
+        self.nfut += 1;
+        let (flag, waker) = flag_waker();
+        let mut pf = PFut { f, flag, waker, woken: false, val: None, sub: Some(i) };
+        let mut cx = Context::from_waker(&pf.waker);
+        let text = format!("anext {i}");
+        match pf.f.as_mut().poll(&mut cx) {
+            Poll::Ready(out) => { self.futs.push(None); self.finish_next(sink, &text, i, out); }
+            Poll::Pending => {
+                if quiet && fresh && !unknown { sink.oracle_fail("C16,C01", &format!("next_ref() of subscriber {i} had to wait although a value it has not seen is set and the lock is free")); }
+                if !quiet { self.lockwait[i] = true; }
+                self.futs.push(Some(pf));
+                self.driven[i] = Some(k);
+                let w = self.woke(); let wf = self.wokef();
+                sink.line(&text, &format!("Pending({k}){w}{wf}"));
+            }
+        }
+    }
+    fn finish_next(&mut self, sink: &mut Sink, text: &str, i: usize, out: FOut) {
+        self.driven[i] = None;
+        match out {
+            FOut::RGV(g) => {
+                let v = g.0;
+                if v != self.cur { sink.oracle_fail("C16,C04", &format!("the guard returned by next_ref() of subscriber {i} shows {v}, the latest value is {}", self.cur)); }
+                let s = self.subs[i].as_mut().unwrap();
+                s.fresh = false; s.parked = false;
+                self.unknown[i] = false;
+                self.lockwait[i] = false; // the update check went through: the subscriber's lock future is a fresh one again
+                self.gsub.push(Some(i));
+                self.guards.push(Some(GuardK::R(g)));
+                let w = self.woke(); let wf = self.wokef();
+                sink.line(text, &format!("guard {} {v}{w}{wf}", self.guards.len() - 1));
+            }
+            FOut::Res(r) => {
+                sink.oracle_fail("C16,C03", &format!("next_ref() of subscriber {i} returned {r} while the observable is alive"));
+                let w = self.woke(); let wf = self.wokef();
+                sink.line(text, &format!("{r}{w}{wf}"));
+            }
+            _ => unreachable!(),
+        }
+    }
     fn fdrop(&mut self, sink: &mut Sink, k: usize) {
+        if let Some(Some(pf)) = self.futs.get(k) { if let Some(i) = pf.sub { self.driven[i] = None; self.unknown[i] = true; } }
         if self.futs[k].take().is_none() { return; }
         let w = self.woke(); let wf = self.wokef();
         sink.line(&format!("afdrop {k}"), &format!("ok{w}{wf}"));
@@ -567,8 +652,8 @@ impl GW {
         if prev != self.cur { sink.oracle_fail("C16,C01", &format!("set through the write guard returned {prev}, the latest value was {}", self.cur)); }
         self.cur = v;
         self.mark_fresh();
-        let w = self.woke();
-        sink.line(&format!("agset {g} set {v}"), &format!("{prev}{w}"));
+        let w = self.woke(); let wf = self.wokef();
+        sink.line(&format!("agset {g} set {v}"), &format!("{prev}{w}{wf}"));
     }
     fn tryrw(&mut self, sink: &mut Sink, write: bool) {
         let r = if write { self.ob.try_write().is_some() } else { self.ob.try_read().is_some() };
@@ -581,14 +666,19 @@ impl GW {
     fn subscribe(&mut self, sink: &mut Sink, reset: bool) {
         let k = if reset { self.ob.subscribe_reset() } else { now(self.ob.subscribe()).expect("subscribe blocked") };
         let (flag, waker) = flag_waker();
-        self.subs.push(Some(SubH { k: SubK::A(k), flag, waker, fresh: reset, parked: false }));
+        self.subs.push(Some(Box::new(SubH { k: SubK::A(k), flag, waker, fresh: reset, parked: false })));
+        self.driven.push(None);
+        self.unknown.push(false);
         self.lockwait.push(false);
         self.under_w.push(false);
         sink.line(&format!("{} 0", if reset { "osubr" } else { "osub" }), &(self.subs.len() - 1).to_string());
     }
     fn poll(&mut self, sink: &mut Sink, i: usize) {
+        if self.busy(i) { return; }
         let cur = self.cur;
         let (quiet, wheld) = (self.quiet(), self.wguard_held());
+        let unknown = self.unknown[i];
+        if quiet { self.unknown[i] = false; }
         let s = self.subs[i].as_mut().unwrap();
         let was_parked = s.parked && !s.flag.0.load(Ordering::SeqCst);
         let mut cx = Context::from_waker(&s.waker);
@@ -600,7 +690,8 @@ impl GW {
         self.lockwait[i] = shown == "Pending" && !quiet;
         self.under_w[i] = shown == "Pending" && wheld;
         if wheld && shown != "Pending" { sink.oracle_fail("C16,C04", &format!("subscriber {i} polled while a write guard is held answered {shown}")); }
-        if quiet {
+        if quiet && unknown { s.fresh = false; }
+        if quiet && !unknown {
             let expect = if fresh_before { format!("Ready({cur})") } else { "Pending".into() };
             if shown != expect { sink.oracle_fail("C16,C01", &format!("poll of subscriber {i} answered {shown}, the default flavour would answer {expect}")); }
         }
@@ -609,6 +700,7 @@ impl GW {
         sink.line(&format!("opoll {i}"), &format!("{shown}{wf}"));
     }
     fn sdrop(&mut self, sink: &mut Sink, i: usize) {
+        if self.busy(i) { return; }
         self.subs[i] = None;
         self.lockwait[i] = false;
         let wf = self.wokef();
@@ -617,8 +709,13 @@ impl GW {
     /// release everything and drive every pending future to completion
     fn settle(&mut self, sink: &mut Sink) {
         for g in 0..self.guards.len() { self.gdrop(sink, g); }
-        for _ in 0..60 {
+        for round in 0..60 {
             if self.futs.iter().all(|f| f.is_none()) && self.guards.iter().all(|g| g.is_none()) { break; }
+            // a next_ref() future with nothing new to deliver stays pending for good: cancel it
+            if round >= 3 { for k in 0..self.futs.len() {
+                let stale = match &self.futs[k] { Some(pf) => match pf.sub { Some(i) => !self.subs[i].as_ref().unwrap().fresh || self.unknown[i], None => false }, None => false };
+                if stale { self.fdrop(sink, k); }
+            } }
             for i in 0..self.subs.len() { if self.subs[i].is_some() && self.lockwait[i] { self.poll(sink, i); } }
             for k in 0..self.futs.len() { if self.futs[k].is_some() { self.fpoll(sink, k); } }
             for g in 0..self.guards.len() { self.gdrop(sink, g); }
@@ -656,7 +753,8 @@ pub fn run_guards(args: &Args, sink: &mut Sink) {
                 7 if w.wguard_held() => { let g = live_guards.iter().copied().find(|g| matches!(w.guards[*g], Some(GuardK::W(_)))).unwrap(); w.gset(sink, g, r.below(30) as u64) }
                 8 | 9 if !live_futs.is_empty() => w.fpoll(sink, live_futs[r.below(live_futs.len())]),
                 10 if !live_futs.is_empty() => w.fdrop(sink, live_futs[r.below(live_futs.len())]),
-                11 | 12 if !live_subs.is_empty() => w.poll(sink, live_subs[r.below(live_subs.len())]),
+                11 if !live_subs.is_empty() => w.poll(sink, live_subs[r.below(live_subs.len())]),
+                12 if !live_subs.is_empty() => { let i = live_subs[r.below(live_subs.len())]; if r.chance(1, 2) { w.anext(sink, i) } else { w.poll(sink, i) } }
                 13 if w.quiet() && live_subs.len() < 3 => w.subscribe(sink, r.chance(1, 3)),
                 13 if live_subs.len() < 3 => w.subscribe(sink, true),
                 14 => w.tryrw(sink, r.chance(1, 2)),
